@@ -17,7 +17,7 @@ ID = 'C12'
 LEVEL = 'exploration'
 RULE = ('programs = innermost skeleton (every statement list over {call, FAIL, if, while, for, with, try/finally} with exactly one '
         'failing statement, up to the size bound) x 10 failure kinds x callee chains up to depth 3 over {converted, '
-        'do_not_convert, lambda, decorated, wrapped by a functools.wraps closure} x call-site nesting {plain, in if, in for}; executions = all tapes on which the '
+        'do_not_convert, lambda, decorated, decorated by a multi-line decorator call, wrapped by a functools.wraps closure} x call-site nesting {plain, in if, in for}; executions = all tapes on which the '
         'original raises; distinct_nontrivial = distinct programs whose original raises on some tape')
 ASSUMPTIONS = ['message = substring containment of the original str(e)',
                'extra non-user frames (operator implementations) may sit between user frames of translated_stack',
@@ -40,7 +40,7 @@ M = ps.Menu
 INNER = M('c12', ('S', 'FAIL'), ('if', 'ifelse', 'while', 'for', 'with', 'tryfin'), vars_=(), ret=(None,))
 # the failing statement sits in a local function of the innermost callee (its frame must be reported under its own name)
 NESTED = M('c12n', ('S', 'FAIL', 'CALLG'), ('if', 'for', 'def'), vars_=(), ret=(None,))
-CHAIN_KINDS = ('conv', 'dnc', 'lam', 'deco', 'wraps')
+CHAIN_KINDS = ('conv', 'dnc', 'lam', 'deco', 'wraps', 'decoml')
 NEST = ('plain', 'if', 'for')
 _S = {'tier': 'quick'}
 
@@ -149,6 +149,12 @@ def render(item, pid=0):
       r.emit(0, '@ident_deco')
     if ckind == 'wraps':
       r.emit(0, '@wraps_deco')
+    if ckind == 'decoml':
+      # a decorator call spanning several lines, then a comment line before the def
+      r.emit(0, '@ident_deco_args(')
+      r.emit(1, '1,')
+      r.emit(1, '2)')
+      r.emit(0, '# a comment between the decorator and the def')
     if ckind == 'lam' and last:
       # a lambda cannot hold statements: it calls a plain helper holding the skeleton
       r.emit(0, '%s = lambda a: %s_body(a)' % (name, name))
@@ -197,6 +203,10 @@ def ident_deco(fn):
   return fn
 
 
+def ident_deco_args(*args):
+  return ident_deco
+
+
 def user_frames(tb, fname):
   return [(fr.name, fr.lineno) for fr in traceback.extract_tb(tb) if fr.filename == fname]
 
@@ -227,7 +237,7 @@ def run_item(item, pid, drop_metadata=False):
     return r
   api._convert_actual = conv
   import functools
-  extra = {'UE': UE, 'UC': UC, 'UCV': UCV, 'ident_deco': ident_deco, 'functools': functools, 'dnc': malt.experimental.do_not_convert}
+  extra = {'UE': UE, 'UC': UC, 'UCV': UCV, 'ident_deco': ident_deco, 'ident_deco_args': ident_deco_args, 'functools': functools, 'dnc': malt.experimental.do_not_convert}
   h = diff.Harness(src, pid, extra_globals=extra)
   fname = h.fname
   viol = []
